@@ -5,28 +5,44 @@ from vlib.runner import Batch
 from props import c06
 
 ID = "C01"
-LEAN_PROPS = ["FcpptProofs.Props.C01"]
+LEAN_PROPS = ["FcpptProofs.Props.C01", "FcpptProofs.Props.C01.Scalar"]
 LEAN_EXTRA = ["FcpptModel.Gen.Scalar"]
-HARNESS = {"src": "harness/c01.cpp", "repo_srcs": [
+HARNESS = {"src": "harness/c01.cpp", "flags": ["-DFCPPT_HAVE_GCC_DEMANGLE"], "repo_srcs": [
     "libs/options/impl/src/options/impl/is_flag.cpp", "libs/options/impl/src/options/impl/next_arg.cpp",
+    "libs/options/impl/src/options/impl/flag_name.cpp",
     "libs/options/src/options/option_name.cpp", "libs/options/src/options/option_name_comparison.cpp",
-    "libs/core/src/io/read_chars.cpp", "libs/core/src/insert_extract_locale.cpp",
+    "libs/core/src/io/read_chars.cpp", "libs/core/src/io/write_chars.cpp", "libs/core/src/insert_extract_locale.cpp",
+    "libs/core/src/args.cpp", "libs/core/src/args_from_second.cpp", "libs/core/src/from_std_string.cpp",
+    "libs/core/src/getenv.cpp", "libs/core/src/system.cpp", "libs/core/src/to_std_string.cpp", "libs/core/src/error/strerror.cpp", "libs/core/src/exception.cpp",
+    "libs/core/src/make_optional_error_code.cpp", "libs/core/src/time/gmtime.cpp", "libs/core/src/time/localtime.cpp",
+    "libs/core/src/endianness/reverse_mem.cpp", "libs/core/src/type_name.cpp", "libs/core/src/type_name_from_info.cpp",
     "libs/filesystem/src/filesystem/file_size.cpp", "libs/filesystem/src/filesystem/remove_extension.cpp",
-    "libs/filesystem/src/filesystem/stem.cpp", "libs/filesystem/src/filesystem/path_to_string.cpp"]}
-TIE = ("scalar registry: translated from /repo on every run (as C06); containers / strings / arguments / files: hand-written models with "
-       "bounds-checked reads + differential correspondence; the harness is the C01 observation itself (ASan+UBSan+_GLIBCXX_ASSERTIONS, "
-       "catch(...), per-line watchdog, exact-size heap buffers behind every string_view)")
-RULE = ("container helpers: all lists over {0,1,2} up to length 4 with every index 0..5; is_flag / enum from_string / extract: all strings up to "
-        "length 4 (quick) / 5 (thorough) over a 4-letter alphabet containing '-'; next_arg: all argument vectors up to length 3 (quick) / 4 "
-        "(thorough) over 7 tokens x 4 option-name contexts; read_chars: all (length, count) up to 6 x 8; paths over {a,.,/} up to length 5; "
-        "file_size on regular/empty/large file, directory, missing path, dangling and valid symlink, '.', ''; scalar: lattice and 8-bit ranges "
-        "of every translated function. Non-trivial = any op other than the empty-container case.")
+    "libs/filesystem/src/filesystem/stem.cpp", "libs/filesystem/src/filesystem/path_to_string.cpp",
+    "libs/filesystem/src/filesystem/extension.cpp", "libs/filesystem/src/filesystem/extension_without_dot.cpp",
+    "libs/filesystem/src/filesystem/normalize.cpp", "libs/filesystem/src/filesystem/num_subpaths.cpp",
+    "libs/filesystem/src/filesystem/replace_extension.cpp", "libs/filesystem/src/filesystem/strip_prefix.cpp",
+    "libs/filesystem/src/filesystem/create_directory.cpp", "libs/filesystem/src/filesystem/create_directories_recursive.cpp",
+    "libs/filesystem/src/filesystem/directory_range.cpp", "libs/filesystem/src/filesystem/recursive_directory_range.cpp",
+    "libs/filesystem/src/filesystem/make_directory_range.cpp", "libs/filesystem/src/filesystem/make_recursive_directory_range.cpp"]}
+TIE = ("scalar registry: translated from /repo on every run (as C06); containers / strings / arguments / streams / paths / files / environment: "
+       "hand-written models with bounds-checked reads + differential correspondence; the harness is the C01 observation itself "
+       "(ASan+UBSan+_GLIBCXX_ASSERTIONS, catch(...), per-line watchdog, exact-size heap buffers with poisoned non-NUL slack behind every string_view, "
+       "containers of heap strings, streams in every state, every kind of path)")
+RULE = ("container helpers: all lists over {0,1,2} up to length 4 (5) with every index 0..5 and indices up to 2^64-1, on vector/deque/string/heap-string "
+        "containers; casts on every (target, dynamic class); is_flag / flag_name / enum from_string: all strings up to length 4 (6) over a 4-letter alphabet "
+        "containing '-'; next_arg: all argument vectors up to length 3 (5) over 7 tokens x 4 option-name contexts; read_chars / stream_to_string / io::get / peek / "
+        "read / extract / write_chars: every stream kind (preset eof/fail/bad bit, 1- and 2-character get area, file, directory, throwing streambuf, null "
+        "streambuf, limited room) x every length up to 6 x every count up to 8, one and two reads; file_size / open / create_directory / directory ranges on 24 "
+        "kinds of path; the pure path helpers with their values on every pathname over {a . /} up to length 5 (7) and all pairs up to 3 (4); getenv, args, "
+        "strerror, gmtime/localtime on the time_t lattice, type_name, system, extract_from_string values under a grouping global locale; scalar: lattice and "
+        "8-bit ranges of every translated function. Non-trivial = any op other than the empty-container case.")
 ASSUMPTIONS = [
-    "std::vector/deque/map, std::filesystem and std::istream are modelled by their specification (List, oracle argument, list of remaining bytes)",
-    "filesystem::remove_extension and extract_from_string are observed only for normal return (their value semantics belong to std:: and C15)",
+    "std::vector/deque/map, std::istream/ostream (state machine incl. a streambuf that throws), std::filesystem::path (libstdc++ POSIX parser) are modelled by "
+    "validated models; the operating system, glibc gmtime_r, the demangler and /bin/sh are oracle tables in the driver",
+    "extract_from_string / io::extract values come from the C15 text model (num_get in the classic locale)",
     "memory safety of template instantiations and object lifetimes: sanitizer verdict on the exercised inputs (a runtime witness, not a proof)",
 ]
-TRUSTED = ["harness/c01.cpp (+ c06.cpp tables)", "tools/cxx2lean.py for the scalar part"]
+TRUSTED = ["harness/c01.cpp, harness/c01_env.cpp (+ c06.cpp tables)", "tools/cxx2lean.py for the scalar part", "the oracle tables of Drv/C01.lean"]
 
 regenerate = c06.regenerate
 
@@ -59,54 +75,218 @@ def nontrivial(op, res):
 
 
 weight = c06.weight
-refine = c06.refine
+
+
+def refine(op):
+    return c06.refine(op) if op.split()[0] in ("range1", "range2", "range3", "list1", "list2", "list3") else None
+
+
+def hx(s):
+    return "x:" + "".join(f"{ord(c) & 255:02x}" for c in s)
+
+
+HUGE = [2 ** 31 - 1, 2 ** 31, 2 ** 32 - 1, 2 ** 32, 2 ** 63 - 1, 2 ** 63, 2 ** 64 - 1]
+IN_KINDS = ["fresh", "eofbit", "failbit", "badbit", "chunk1", "chunk2", "file", "throwend", "throwend1"]
+# kinds of paths of the scratch directory (harness/c01.cpp make_scratch, c01_env.cpp path_of_kind)
+PATH_KINDS = ["file0", "file5", "dir", "dir2", "sub", "trailing", "filetrailing", "missing", "dangling", "symfile", "symsym", "selfloop",
+              "loopa", "loopb", "symdir", "longname", "underfile", "underloop", "longpath", "missingparent", "emptypath", "weirdname", "relfile", "reldot",
+              "reldotdot", "reldir", "relmissing", "relunder"]
+WRITE_KINDS = ["new", "dir", "symdir", "underfile", "missingparent", "longname", "selfloop", "emptypath", "trailing", "filetrailing",
+               "longpath", "underloop"]
+MKDIR_KINDS = ["new", "newnested"] + [k for k in PATH_KINDS if k not in ("missing", "missingparent", "relmissing")] + ["dot", "fifo"]
+DEMANGLE_NAMES = ["i", "x", "", "_Z", "_ZN", "_Z1", "St6vectorIiSaIiE", "St6vectorIiSaIiEE", "N3c012d3", "N3c012d3E", "3foo3bar", "3foo", "_Z1fv",
+                  "_Z1fv_", "abc", "-", "__", "9999999999a", "N", "S", "I", "T_", "PKc"]
+# time_t values: epoch, day / leap-day / year boundaries, 32-bit limits, the last and first second whose year fits tm_year, the limits
+TIMES = [0, 1, -1, 59, 60, 3599, 3600, 86399, 86400, -86400, -86401, 951782399, 951782400, 951868800, 68169600, 68255999, 68256000,
+         946684799, 946684800, 4107542400, 4102444800, 2 ** 31 - 1, 2 ** 31, -2 ** 31, -2 ** 31 - 1, 2 ** 32, 253402300799, 253402300800,
+         -62135596800, -62135596801, -62167219200, -62167219201, 67767976233532799, 67767976233532800, 67768036191676799,
+         67768036191676800, -67768040609740800, -67768040609740801, -67768100567971200, 2 ** 62, -2 ** 62, 2 ** 63 - 1, -2 ** 63]
 
 
 def batches(rng, tier):
     thorough = tier == "thorough"
     ops = []
-    for l in lists(4):
-        for i in range(0, 6):
+    for l in lists(6 if thorough else 4):
+        for i in range(0, 8 if thorough else 6):
             ops.append(f"atopt {csv(l)} {i}")
+        if len(l) <= 2 or l == [0, 1, 2, 0]:
+            ops += [f"atopt {csv(l)} {i}" for i in HUGE]
         ops += [f"front {csv(l)}", f"back {csv(l)}", f"popback {csv(l)}", f"popfront {csv(l)}"]
         for size in range(0, 5):
             ops.append(f"fromrange {size} {csv(l)}")
-    for m in range(0, 6):
-        if m == 4:
-            continue
-        for i in list(range(0, 8)) + [255, 256, 4294967295]:
-            ops.append(f"rtindex {m} {i}")
+    for ty, top in (("u8", [254, 255]), ("u32", [255, 256, 257, 65536, 2 ** 32 - 1]), ("u64", [255, 256, 2 ** 32 - 1, 2 ** 32, 2 ** 32 + 1, 2 ** 63, 2 ** 64 - 1])):
+        for m in (0, 1, 2, 3, 5):
+            for i in list(range(0, 8)) + top:
+                ops.append(f"rtindex {ty} {m} {i}")
     for keys in lists(3, dom=(1, 2, 3)):
         pairs = ",".join(f"{k}:{10 * k + j}" for j, k in enumerate(keys)) if keys else "_"
-        for k in (1, 2, 3, 4):
+        for k in (0, 1, 2, 3, 4):
             ops.append(f"findopt {pairs} {k}")
-    ops += [f"dyncast {k}" for k in ("d1", "d2", "base")]
-    yield Batch("containers", ops, exhaustive=True, note="at_optional/maybe_front/maybe_back/pop_back/pop_front/from_range/runtime_index/find_opt/cast::dynamic")
-    n = 5 if thorough else 4
+    ops += [f"cast {target} {dyn}" for target in ("d1", "d2", "d3", "m", "iface") for dyn in ("base", "d1", "d2", "d3", "m")]
+    yield Batch("containers", ops, exhaustive=True,
+                note="at_optional (vector/deque/const/string/heap strings, indices up to 2^64-1), maybe_front/back, pop_back/pop_front (also containers of heap "
+                     "strings: a read after the pop is a use-after-free), array::from_range (lvalue/deque/rvalue), runtime_index (u8/u32/u64 index), "
+                     "find_opt/find_opt_mapped/find_opt_iterator (map/const/unordered), the five dynamic casts on every (target, dynamic class)")
+    # math::vector wrappers of the translated scalar helpers: all-or-nothing over the components
+    IMIN, IMAX, UMAX = -2 ** 31, 2 ** 31 - 1, 2 ** 32 - 1
+    ivals = [IMIN, IMIN + 1, -7, -2, -1, 0, 1, 2, 7, IMAX]
+    uvals = [0, 1, 2, 3, 7, 2 ** 31, UMAX]
+    ismall, usmall = [IMIN, -7, -1, 0, 2, IMAX], [0, 1, 3, 2 ** 31, UMAX]
+    vops = []
+    ivecs = [[a, b] for a in ivals for b in ivals] + [[a, b, c] for a in ismall for b in ismall for c in ismall]
+    uvecs = [[a, b] for a in uvals for b in uvals] + [[a, b, c] for a in usmall for b in usmall for c in usmall]
+    for v in ivecs:
+        for d in ivals:
+            if d == -1 and IMIN in v:
+                continue        # INT_MIN / -1: the exact quotient is not representable (outside the property's guard)
+            vops += [f"vdiv i32 {csv(v)} {d}", f"vceildiv i32 {csv(v)} {d}"]
+    for v in uvecs:
+        for d in uvals:
+            vops += [f"vdiv u32 {csv(v)} {d}", f"vmod u32 {csv(v)} {d}"]
+    r = rng.fork("vectors")
+    for vecs, vals, ty in ((ivecs, ivals, "i32"), (uvecs, uvals, "u32")):
+        pairs = [(a, b) for a in vecs for b in vecs if len(a) == len(b) and not any(x == IMIN and y == -1 for x, y in zip(a, b))]
+        if not thorough:
+            pairs = [p for p in pairs if len(p[0]) == 2] + [r.choice(pairs) for _ in range(1500)]
+        for a, b in pairs:
+            vops.append(f"vdivv {ty} {csv(a)} {csv(b)}")
+            if ty == "u32":
+                vops.append(f"vmodv {ty} {csv(a)} {csv(b)}")
+    yield Batch("vectors", vops, exhaustive=True,
+                note="math::vector operator/ (scalar, vector), mod (scalar, vector), ceil_div_signed on 2- and 3-dimensional int32/uint32 vectors over the boundary "
+                     "values (INT_MIN, -1, 0, INT_MAX, 2^31, UINT_MAX): nothing iff some divisor is zero, every component from the translated scalar helper")
+    n = 7 if thorough else 4
     ops = [f"isflag s:{w}" for w in words("-a=b", n)]
     ops += [f"enumfs s:{w}" for w in words("fobar", 4 if not thorough else 5)] + [f"enumfs s:{w}" for w in ("foo", "bar", "baz", "fo", "foobar", "foobarx", "fooba", "")]
-    yield Batch("strings", ops, exhaustive=True, note="is_flag and enum from_string on all short strings, views backed by exact-size heap buffers")
-    toks = ["-", "--", "-a", "--opt", "x", "-x", ""]
+    # case, embedded NUL, bytes >= 0x80: a C-string or case-folding comparison is wrong on these
+    ops += [f"enumfs s:{w}" for w in ("FOO", "Foo", "fO", "BAR", "Fo", "FOOBAR", "foo_", "_foo")]
+    ops += [f"enumfs {hx(w)}" for w in ("foo\0", "\0foo", "fo\0o", "fo\0", "foobar\0x", "\0", "foo\xff", "\xe6oo", "foo ", " foo")]
+    ops += [f"isflag {hx(w)}" for w in ("-\0", "--\0a", "\0-", "-\xff", "\xff-", "--\xff\0", "\xad", "-\xad", " -", "- ", "-- ", "\t-a")]
+    ops += [f"flagname {k} s:{w}" for k in ("short", "long") for w in words("-a=", 3 if not thorough else 4)]
+    yield Batch("strings", ops, exhaustive=True, note="is_flag, enum from_string, flag_name (+ is_flag of its result) on all short strings, views backed by exact-size heap buffers")
+    toks = ["-", "--", "-a", "--opt", "x", "-x", "", "--a", "-opt"]
     ctxs = ["_", "opt:l", "a:s,opt:l", "x:s,:s"]
     vecs = [[]]
     frontier = [[]]
-    for _ in range(4 if thorough else 3):
+    for _ in range(5 if thorough else 3):
         frontier = [v + [t] for v in frontier for t in toks]
         vecs += frontier
-    ops = [f"nextarg {','.join(v) if v else '_'} {c}" for v in vecs for c in ctxs]
-    yield Batch("next_arg", ops, exhaustive=True, note="all argument vectors over 7 tokens incl. '-', '--' and the empty string, 4 option-name contexts")
+    ops = [f"nextarg {'__' if v == [''] else ','.join(v) if v else '_'} {c}" for v in vecs for c in ctxs]
+    yield Batch("next_arg", ops, exhaustive=True, note="all argument vectors over 9 tokens incl. '-', '--' and the empty string, 4 option-name contexts")
+    # ---- streams in every state
     ops = []
     for ln in range(0, 7):
         s = "abcdef"[:ln]
-        for cnt in range(0, 9):
-            ops.append(f"readchars s:{s} {cnt}")
-        ops.append(f"streamtostring s:{s}")
-    ops += [f"filesize {k}" for k in ("file0", "file5", "file4096", "dir", "missing", "dangling", "symfile", "dot", "emptypath",
-                                            "symsym", "selfloop", "loopa", "loopb", "symdir", "fifo", "longname", "underfile", "underloop", "longpath")]
-    ops += [f"rmext s:{w}" for w in words("a./", 5)]
-    for ty in ("int", "uint", "short", "ulong", "string"):
-        ops += [f"extract {ty} s:{w}" for w in words("1-+ a", 3)] + [f"extract {ty} s:{w}" for w in ("99999999999999999999", "-99999999999999999999", "2147483648", "-2147483649", "65536", "0x10", "1e3")]
-    yield Batch("streams-files-paths", ops, exhaustive=True, note="read_chars, stream_to_string, file_size, remove_extension, extract_from_string")
+        for k in IN_KINDS:
+            for cnt in range(0, 9):
+                ops.append(f"readchars {k} s:{s} {cnt}")
+            ops.append(f"sts {k} s:{s}")
+            if ln <= 3:
+                ops += [f"ioget {k} s:{s}", f"iopeek {k} s:{s}"]
+        for k in ("fresh", "chunk1", "file", "throwend"):
+            if ln <= 5:
+                ops += [f"readchars2 {k} s:{s} {a} {b}" for a in range(0, 7) for b in range(0, 7)]
+    # characters that collide with traits::eof() when narrowed: 0xff, and NUL
+    for k in ("fresh", "chunk1", "file", "throwend"):
+        ops += [f"{op} {k} {hx(w)}" for op in ("ioget", "iopeek") for w in ("\xff", "\xffa", "a\xff", "\x00", "\x00\xff", "\xff\xff", "\x80", "\x7f")]
+        ops += [f"sts {k} {hx(w)}" for w in ("\xff", "\x00", "a\x00b", "\xff\xfe")] + [f"readchars {k} {hx('a' + chr(0) + chr(255) + 'b')} {c}" for c in range(0, 6)]
+    for k in ("nullbuf", "dir"):
+        ops += [f"readchars {k} s: {cnt}" for cnt in range(0, 4)] + [f"sts {k} s:", f"ioget {k} s:", f"iopeek {k} s:"]
+    ops += [f"readchars {k} s:abc {c}" for k in ("fresh", "file", "chunk1") for c in (4096, 65536, 1 << 20)]
+    big = "q" * 10000
+    ops += [f"readchars {k} s:{big} {c}" for k in ("fresh", "file", "chunk2") for c in (8191, 8192, 8193, 10000, 10001)]
+    ops += [f"sts {k} s:{big}" for k in ("fresh", "file", "chunk2", "throwend")]
+    pat = "\x01\x80\xff\x00\x7f\xfe\x10\x02\x03"
+    for ty, size in (("u8", 1), ("u16", 2), ("u32", 4), ("i32", 4), ("u64", 8)):
+        for e in ("big", "little"):
+            for k in ("fresh", "chunk1", "file", "eofbit", "failbit", "badbit", "throwend"):
+                for ln in range(0, size + 2):
+                    ops.append(f"ioread {ty} {e} {k} {hx(pat[:ln])}")
+            ops += [f"ioread {ty} {e} fresh {hx(c * size)}" for c in ("\xff", "\x80", "\x00")] + [f"ioread {ty} {e} fresh {hx(chr(0x80) + chr(0) * (size - 1))}",
+                                                                                                 f"ioread {ty} {e} fresh {hx(chr(0) * (size - 1) + chr(0x80))}"]
+            ops += [f"ioread {ty} {e} {k} x:" for k in ("nullbuf", "dir")]
+    for k in ["fresh", "eofbit", "failbit", "badbit", "nullbuf", "file"] + [f"room{r}" for r in range(0, 6)] + [f"throwroom{r}" for r in range(0, 6)]:
+        ops += [f"writechars {k} s:{'vwxyz'[:ln]}" for ln in range(0, 6)]
+    ops += [f"writechars {k} s:{big}" for k in ("fresh", "file", "room9999", "room10000", "throwroom9999")]
+    ops += [f"writechars devfull s:{'q' * n}" for n in (0, 1, 100, 1023, 1024, 1025, 4096, 8191, 8192, 10000, 100000)]
+    yield Batch("streams", ops, exhaustive=True,
+                note="read_chars (one and two reads), stream_to_string, io::get/peek/read, write_chars on streams in every state: eof/fail/bad bit preset, "
+                     "null streambuf, 1- and 2-character get areas, ifstream on a file and on a directory, streambuf that throws, output with limited room")
+    # ---- the file system helpers on every kind of path
+    ops = [f"filesize {k}" for k in ["file4096", "sparse5g", "dot", "fifo"] + PATH_KINDS]
+    ops += [f"fopen {m} {k}" for m in ("r", "rx") for k in PATH_KINDS + ["dot"]]
+    ops += [f"fopen {m} {k}" for m in ("w", "wx") for k in WRITE_KINDS]
+    ops += [f"{op} {k}" for op in ("mkdir", "mkdirs") for k in MKDIR_KINDS]
+    ops += [f"{op} {o} {k}" for op in ("dirrange", "rdirrange") for o in ("none", "skip", "follow") for k in PATH_KINDS + ["fifo"]]
+    yield Batch("files", ops, exhaustive=True,
+                note="file_size, open/open_exn (read, write), create_directory, create_directories_recursive, make_(recursive_)directory_range on: regular/empty "
+                     "file, directory (empty, populated, with trailing slash), missing, dangling/valid/double symlink, self-loop and 2-cycle (ELOOP), link to a "
+                     "directory, fifo, name > NAME_MAX, path > PATH_MAX, component under a file (ENOTDIR), under a loop, missing parent, '', '.', a name with blank / newline / "
+                     "non-UTF-8 bytes, relative paths (plain, './', 'dir/../', 'file/../'), a 5 GB sparse file")
+    # ---- pure path helpers: all pathnames over {a . /}
+    n = 8 if thorough else 5
+    ws = words("a./", n)
+    ops = [f"path {f} s:{w}" for w in ws for f in ("rmext", "ext", "extnodot", "stem", "normalize", "nsub", "tostring")]
+    small = words("a./", 4 if thorough else 3)
+    ops += [f"replext s:{w} s:{e}" for w in words("a./", 4) for e in ("", "x", ".x", "x.y", ".", "a/b")]
+    ops += [f"stripprefix s:{a} s:{b}" for a in small for b in small]
+    r = rng.fork("paths")
+    for _ in range(3000 if thorough else 400):
+        w = "".join(r.choice("ab.-_/") for _ in range(r.range(1, 14)))
+        ops += [f"path {f} s:{w}" for f in ("rmext", "ext", "extnodot", "stem", "normalize", "nsub")]
+        v = "".join(r.choice("ab./") for _ in range(r.range(0, 6)))
+        ops += [f"stripprefix s:{v} s:{w}", f"replext s:{w} s:{v.replace('/', '')}"]
+    yield Batch("paths", ops, exhaustive=True,
+                note="remove_extension, extension, extension_without_dot, stem, normalize, num_subpaths, path_to_string, replace_extension, strip_prefix (inside its "
+                     "documented precondition) with their VALUES against the path model: every pathname over {a . /} up to length 5/6, all pairs up to 3/4, random longer ones")
+    # ---- environment, arguments, errno, time, names, text
+    ops = [f"getenv s:{n}" for n in ("VERIF_C01_SET", "VERIF_C01_EMPTY", "VERIF_C01_EQ", "VERIF_C01_UNSET", "", "=", "VERIF_C01_SET=value", "VERIF_C01_SET=",
+                                     "VERIF_C01_SE", "VERIF_C01_SETT", "verif_c01_set", "=VERIF_C01_SET")]
+    ops += [f"getenv {hx(n)}" for n in ("VERIF_C01_SET\0x", "\0VERIF_C01_SET", "VERIF_C01_UNSET\0", "VERIF\0_C01_SET")]
+    atoks = ["a", "bc", "", "-x"]
+    avecs = [[]]
+    frontier = [[]]
+    for _ in range(4 if thorough else 3):
+        frontier = [v + [t] for v in frontier for t in atoks]
+        avecs += frontier
+    for v in avecs:
+        if v == [""]:
+            continue        # a single empty argument has no token form
+        ops += [f"{op} {len(v)} {','.join(v) if v else '_'}" for op in ("args", "args2")]
+    ops += [f"strerror {e}" for e in list(range(-2, 140)) + [255, 256, 4095, 4096, 65535, 2 ** 31 - 1, -2 ** 31]]
+    ts = list(TIMES)
+    r = rng.fork("times")
+    ts += [r.range(-2 ** 63, 2 ** 63 - 1) for _ in range(200)] + [r.range(-2 ** 40, 2 ** 40) for _ in range(200)] + [r.range(-2 ** 56, 2 ** 56) for _ in range(200)]
+    ops += [f"{op} {t}" for t in ts for op in ("gmtime", "localtime")]
+    ops += [f"typename s:{n}" for n in DEMANGLE_NAMES] + [f"typeinfo {k}" for k in ("int", "string", "d3", "lambda")]
+    texts = words("1-+ a,", 3) + ["99999999999999999999", "-99999999999999999999", "2147483647", "2147483648", "-2147483648", "-2147483649", "4294967295",
+                                  "4294967296", "32767", "32768", "-32768", "-32769", "65536", "0x10", "1e3", "1,000", "1,0", "1.5", "1;5", " 7", "7 ", "\t7", "7\n", "00",
+                                  "-0", "+0", "18446744073709551615", "18446744073709551616", "9223372036854775807", "9223372036854775808", "-9223372036854775808",
+                                  "-9223372036854775809", "12,345,678", ",1", "1,", "a b", " ab", "ab "]
+    for ty in ("int", "uint", "short", "ulong", "long", "string"):
+        ops += [f"extract {ty} {hx(w)}" for w in texts]
+    ctexts = words("a 1\xff", 2) + ["\x80", "\x00", "\t", "\n", "\x0b", "\x0c", "\r", "ab", " a", "a ", "a\x00", "\x00a", "\x7f", "\xfe"]
+    for ty in ("char", "uchar", "schar"):
+        ops += [f"extract {ty} {hx(w)}" for w in ctexts]
+    for ty in ("int", "uint", "short", "long", "char", "uchar"):
+        for k in ("fresh", "eofbit", "failbit", "badbit", "chunk1", "file"):
+            ops += [f"ioextract {ty} {k} {hx(w)}" for w in ("", "7", " 7", "7 ", "-7", "+", "a", "99999999999", "32768", "-32769", "12ab", "\xff", "\x00", " ")]
+    ftexts = ["1", "1.5", "-1.5", "abc", "", "1e400", "1e-400", "1e38", "1e39", "1e-46", "nan", "inf", "-inf", "infinity", "0x1p3", "1,5", "1;5", "1.5 ", " 1.5", "1e", "1e+",
+              "+.5", ".", ".5", "5.", "1.5.2", "-0", "1e308", "1e309", "-1e309", "1e-323", "1e-324", "123456789012345678901234567890", "0.1e1", "1E3", "1d3", "1f"]
+    ops += [f"extract {ty} {hx(w)}" for ty in ("float", "double") for w in ftexts]
+    ops += ["uptrstd null", "uptrstd object", "weaklock live", "weaklock expired", "weaklock empty"]
+    fvals = ["0", "-0", "1", "-1", "denorm", "-denorm", "max", "inf", "-inf", "nan"]
+    ops += [f"atan2 {x} {y}" for x in fvals for y in fvals]
+    ops += [f"system {k}" for k in ("exit0", "exit3", "exit255", "exit256", "true", "empty", "notfound", "kill", "term", "segv")]
+    yield Batch("environment", ops, exhaustive=True,
+                note="getenv (set/empty/unset/malformed names, embedded NUL), args/args_from_second on exact-size argv arrays (argc 0..3/4), error::strerror on every "
+                     "errno and the int limits, time::gmtime/localtime on the time_t lattice incl. the first value whose year overflows tm_year (documented "
+                     "runtime_error) and INT64 limits, type_name on well- and ill-formed mangled names, extract_from_string(_locale) values (numbers, strings, character types) "
+                     "under a global locale that groups digits, io::extract on streams in every state, fcppt::system on commands that exit / are killed / do not exist")
+    if os.environ.get("VERIF_C01_CANDIDATES"):
+        # the defect candidate of notes/C01.md: extract_from_string under a changed global locale (model: the documented classic-locale behaviour)
+        yield Batch("candidate-global-locale", [f"extractg {ty} {hx(w)}" for ty in ("int", "long") for w in ("1,000", "12,345,678", "1000")], exhaustive=True,
+                    note="DEFECT CANDIDATE reproduction (opt-in)")
     # scalar registry: totality over boundary lattices (the full exhaustive ranges run under C06)
     ops = []
     for t in c06.UNS:
@@ -132,17 +312,20 @@ def batches(rng, tier):
 search = c06.search
 
 MANIFEST = {
-    "level_text": ("Machine-checked proof (Lean 4) of totality: for the container/string/argument helpers (at_optional, maybe_front/back, pop_back/front, "
-                   "find_opt, array::from_range, runtime_index, enum from_string, options is_flag and next_arg, read_chars, file_size) models "
-                   "with bounds-checked reads never reach a Fault (no out-of-bounds read, terminate) for every input; for the scalar registry "
-                   "the definitions translated from the source on every run return .ok whenever the exact result is representable "
-                   "(corollaries of the C06 theorems). The harness is the runtime observation the property names: sanitizers, catch(...), "
-                   "watchdog, exact-size buffers; its results must equal the models' on exhaustive small domains."),
+    "level_text": ("Machine-checked proof (Lean 4) of totality: models with bounds-checked reads never reach a Fault (no out-of-bounds access, no "
+                   "uninitialised read, terminate, only the documented exception) for every input — containers (at_optional, maybe_front/back, pop_back/front, "
+                   "find_opt, array::from_range, runtime_index), strings and arguments (is_flag, flag_name, enum from_string, next_arg = its structural "
+                   "specification, args/args_from_second, getenv), streams in any state (read_chars with the buffer it fills, stream_to_string, io::get/peek/read, "
+                   "write_chars), paths (extension_without_dot, stem/extension, strip_prefix inside its precondition), file-system and time helpers over an OS "
+                   "oracle (file_size, create_directory, directory ranges, open_exn, gmtime); for the scalar registry EVERY instantiation translated from the "
+                   "source on every run returns .ok whenever the exact result is representable (corollaries of the C06 theorems). The harness is the runtime "
+                   "observation the property names: sanitizers, catch(...), watchdog, exact-size buffers; its results must equal the models' on exhaustive small "
+                   "domains of values, stream states and path kinds."),
     "level_note": ("PARTIAL in the sense of DESIGN.md: memory safety of the template instantiations, object lifetimes, allocator and OS behaviour "
-                   "are runtime facts the models cannot exhibit - the sanitizer verdict on the exercised inputs is their only witness. "
-                   "options::parse, parse::phrase_parse_string and impl::codecvt are covered by C03, C02/C12 and C15. The known finding "
-                   "'options::many around a non-consuming parser never terminates' is reported under C03. Trusted: Lean kernel + "
-                   "propext/Classical.choice/Quot.sound, translator, harness."),
+                   "are runtime facts the models cannot exhibit - the sanitizer verdict on the exercised inputs is their only witness; libstdc++ / glibc / "
+                   "kernel behaviour enters as validated models and oracle tables. options::parse, parse::phrase_parse_string and impl::codecvt are covered "
+                   "by C03, C02/C12 and C15. The known finding 'options::many around a non-consuming parser never terminates' is reported under C03. "
+                   "Trusted: Lean kernel + propext/Classical.choice/Quot.sound, translator, harness, oracle tables."),
     "technique": "Lean 4 totality proofs over translated + hand-written models, differential correspondence under ASan/UBSan/watchdog",
     "design_ref": "DESIGN.md §5 C01",
 }
